@@ -544,6 +544,155 @@ fn respell_division_cases(seed: u64, count: usize) -> Vec<Case> {
 }
 fn r_chance(i: usize, m: usize) -> bool { i % m == 1 }
 
+/// An undefined division NESTED in the numerator of another division (directly, or as an operand of + - * neg abs
+/// min max under the outer division), below an absorbing constant (`0 * _`, `_ * 0`, `0 and _`, `_ or 1`, n-ary and
+/// BinOp-spelled): `may_be_undefined` has to look through the outer division.  Own forked stream, fixed count.
+/// Each expression goes through simplify / flatten / collapses (correspondence + exact oracle: `division-erased`,
+/// `definedness-created`), and through `Linearizer::linearize` as `y + E >= 1` against the twin in which the outer
+/// `/ d` is written `* (1/d)` (same acceptance / error kind / published domains expected).
+fn nested_undefined_cases(seed: u64, count: usize) -> Vec<Case> {
+    use rooc::{Comparison, OptimizationType, VariableType};
+    let mut rr = Rng::new(seed ^ 0x0C10_7DEF_1DED);
+    let r = &mut rr;
+    let num = |v: f64| Exp::Number(v);
+    let var = |n: &str| Exp::Variable(n.into());
+    let bx = |op: BinOp, l: Exp, x: Exp| Exp::BinOp(op, Box::new(l), Box::new(x));
+    let ds = vec![
+        gen_model::VarDecl { name: "x".into(), ty: VariableType::Real(-3.0, 5.0) },
+        gen_model::VarDecl { name: "y".into(), ty: VariableType::Real(0.0, 9.0) },
+        gen_model::VarDecl { name: "a".into(), ty: VariableType::Boolean },
+    ];
+    let mut out = vec![];
+    for i in 0..count {
+        // the undefined division
+        let u = match i % 3 { 0 => bx(BinOp::Div, var("x"), num(0.0)), 1 => bx(BinOp::Div, num(1.0), var("x")), _ => bx(BinOp::Div, var("y"), bx(BinOp::Sub, num(1.0), num(1.0))) };
+        // how it sits in the numerator
+        let inner = match (i / 3) % 8 {
+            0 => u.clone(),
+            1 => bx(BinOp::Add, u.clone(), var("y")),
+            2 => bx(BinOp::Sub, var("y"), u.clone()),
+            3 => bx(BinOp::Mul, u.clone(), num(3.0)),
+            4 => Exp::UnOp(UnOp::Neg, Box::new(u.clone())),
+            5 => Exp::Abs(Box::new(u.clone())),
+            6 => Exp::Max(vec![u.clone(), var("y")]),
+            _ => Exp::Min(vec![var("y"), bx(BinOp::Add, u.clone(), num(1.0))]),
+        };
+        let d = *r.pick(&[2.0, 4.0, -2.0, 8.0]);
+        let outer = |scale: bool| if scale { bx(BinOp::Mul, inner.clone(), num(1.0 / d)) } else { bx(BinOp::Div, inner.clone(), num(d)) };
+        // the absorbing context
+        let ctx = |e: Exp| -> Exp { match (i / 24) % 6 {
+            0 => bx(BinOp::Mul, num(0.0), e),
+            1 => bx(BinOp::Mul, e, num(0.0)),
+            2 => Exp::And(vec![num(0.0), e, var("a")]),
+            3 => Exp::Or(vec![e, num(1.0)]),
+            4 => bx(BinOp::And, e, num(0.0)),
+            _ => bx(BinOp::Mul, num(0.0), bx(BinOp::Add, e, var("y"))),
+        } };
+        let e_div = ctx(outer(false));
+        for which in ["simplify", "flatten", "collapses"] {
+            out.push(one(&e_div, which, "nested-undefined"));
+        }
+        // through compile: `y + E >= 1`, division vs scale twin
+        let mk = |e: Exp| gen_model::build(OptimizationType::Max, var("y"),
+            vec![Constraint::new(bx(BinOp::Add, var("y"), e), Comparison::GreaterOrEqual, num(1.0), String::new())], &ds);
+        let (m1, m2) = (mk(ctx(outer(true))), mk(e_div.clone()));
+        let (a, b) = (Linearizer::linearize(m1.clone()), Linearizer::linearize(m2.clone()));
+        let err = |e: &rooc::LinearizationError| crate::props::c01::lin_error(e);
+        let show = |z: &Result<rooc::LinearModel, rooc::LinearizationError>| z.as_ref().err().map(|e| err(e)).unwrap_or("(ok)".into());
+        let mut c = Case::default();
+        c.show = format!("{}  ~~`* 1/d` respelled as `/ d` above an undefined division~~>  {}", format!("{}", m1).replace('\n', " ; "), format!("{}", m2).replace('\n', " ; "));
+        c.tags = vec!["respell".into(), "respell-nested-undefined".into()];
+        c.nontrivial = true;
+        c.imp = format!("({} {})", show(&a), show(&b));
+        let same = match (&a, &b) { (Ok(x), Ok(y)) => sx::lin_model(x) == sx::lin_model(y), (Err(x), Err(y)) => err(x) == err(y), _ => false };
+        if !same {
+            c.sig = Some("respelling-changes-acceptance".into());
+            c.impl_violation = Some(format!("an undefined division in the numerator of `_ / d` vs `_ * (1/d)` below an absorbing constant: {} vs {}", show(&a), show(&b)));
+        } else if a.is_ok() {
+            // both accepted although the constraint contains a division by zero / by a variable
+            c.tags.push("nested-undefined-both-accepted".into());
+        } else { c.tags.push("respell-both-rejected".into()); }
+        out.push(c);
+    }
+    out
+}
+
+/// Twin models whose only difference is a UNARY MINUS in front of a parenthesised sum / difference with a non-zero
+/// constant (`-(x - 3)`, `-2(x - 3)` = `Neg(2 * (x - 3))`, `-(3 - x) * 2`) against the explicit-product spelling
+/// (`-1 * (x - 3)`, `-2 * (x - 3)`, `(3 - x) * -2`, `-2x + 6`).  `flatten` leaves the negation of a sum alone, so it is
+/// the bound inference's affine recogniser (`AffineForm::from_exp`, unary-minus arm) that reads it.  Own forked
+/// stream, fixed count; compared on inferred ranges + published domains, acceptance / error kind, rows.
+fn respell_negation_cases(seed: u64, count: usize) -> Vec<Case> {
+    use rooc::{Comparison, OptimizationType, VariableType};
+    let mut rr = Rng::new(seed ^ 0x0C10_8E6A_7103);
+    let r = &mut rr;
+    let num = |v: f64| Exp::Number(v);
+    let var = |n: &str| Exp::Variable(n.into());
+    let bx = |op: BinOp, l: Exp, x: Exp| Exp::BinOp(op, Box::new(l), Box::new(x));
+    let neg = |e: Exp| Exp::UnOp(UnOp::Neg, Box::new(e));
+    let mut out = vec![];
+    for i in 0..count {
+        let k = *r.pick(&[3.0, 1.0, 5.0, 2.5, 7.0]);
+        let c2 = *r.pick(&[2.0, 3.0, 4.0]);
+        let b = 10.0 + r.below(12) as f64;
+        let ds = vec![
+            gen_model::VarDecl { name: "x".into(), ty: VariableType::Real(0.0, 100.0) },
+            gen_model::VarDecl { name: "y".into(), ty: VariableType::Real(-50.0, 50.0) },
+        ];
+        let xm = || bx(BinOp::Sub, var("x"), num(k));          // x - k
+        let mx = || bx(BinOp::Sub, num(k), var("x"));          // k - x
+        // (with unary minus, explicit product)
+        let (t1, t2): (Exp, Exp) = match i % 6 {
+            0 => (neg(xm()), bx(BinOp::Mul, num(-1.0), xm())),
+            1 => (neg(bx(BinOp::Mul, num(c2), xm())), bx(BinOp::Mul, num(-c2), xm())),
+            2 => (bx(BinOp::Mul, neg(mx()), num(c2)), bx(BinOp::Mul, mx(), num(-c2))),
+            3 => (neg(bx(BinOp::Mul, num(c2), xm())), bx(BinOp::Add, bx(BinOp::Mul, num(-c2), var("x")), num(c2 * k))),
+            4 => (neg(bx(BinOp::Add, var("x"), num(k))), bx(BinOp::Sub, bx(BinOp::Mul, num(-1.0), var("x")), num(k))),
+            _ => (bx(BinOp::Add, neg(bx(BinOp::Mul, num(c2), bx(BinOp::Add, xm(), var("y")))), var("y")),
+                  bx(BinOp::Add, bx(BinOp::Mul, num(-c2), bx(BinOp::Add, xm(), var("y"))), var("y"))),
+        };
+        let on_rhs = r.chance(1, 4);
+        let mk = |t: Exp| {
+            let c = if on_rhs { Constraint::new(num(-b), Comparison::LessOrEqual, t, String::new()) }
+                    else { Constraint::new(t, Comparison::GreaterOrEqual, num(-b), String::new()) };
+            gen_model::build(OptimizationType::Max, var("x"), vec![c], &ds)
+        };
+        let (m1, m2) = (mk(t2), mk(t1));
+        let (a, bb) = (Linearizer::linearize(m1.clone()), Linearizer::linearize(m2.clone()));
+        let (b1, b2) = (crate::props::c01::bounds_sx(&m1), crate::props::c01::bounds_sx(&m2));
+        let mut c = Case::default();
+        c.show = format!("{}  ~~product respelled with a unary minus~~>  {}", format!("{}", m1).replace('\n', " ; "), format!("{}", m2).replace('\n', " ; "));
+        c.tags = vec!["respell".into(), "respell-unary-minus".into()];
+        c.nontrivial = true;
+        let err = |e: &rooc::LinearizationError| crate::props::c01::lin_error(e);
+        if b1 != b2 {
+            c.imp = "(bounds-differ)".into();
+            c.sig = Some("respelling-changes-bounds".into());
+            c.impl_violation = Some(format!("a product spelled with a unary minus in front of a parenthesised sum: inferred ranges / published domains differ: {} {}  vs  {} {}", b1.0, b1.1, b2.0, b2.1));
+        } else {
+            match (&a, &bb) {
+                (Ok(la), Ok(lb)) => {
+                    c.imp = "(both-compile)".into();
+                    if sx::lin_model(la) == sx::lin_model(lb) { c.tags.push("respell-identical-output".into()); }
+                    else {
+                        c.tags.push("respell-different-output".into());
+                        c.oracle = format!("py:{} {} {}", if i % 2 == 0 { "c01" } else { "c02" }, sx::model(&m1), sx::lin_model(lb));
+                    }
+                }
+                (Err(x), Err(y)) if err(x) == err(y) => { c.imp = format!("(both-rejected {})", err(x)); c.tags.push("respell-both-rejected".into()); }
+                (x, y) => {
+                    c.imp = format!("(acceptance-differs {} {})", x.is_ok(), y.is_ok());
+                    c.sig = Some("respelling-changes-acceptance".into());
+                    let e = |z: &Result<rooc::LinearModel, rooc::LinearizationError>| z.as_ref().err().map(|e| err(e)).unwrap_or("(ok)".into());
+                    c.impl_violation = Some(format!("a product spelled with a unary minus: {} vs {}", e(x), e(y)));
+                }
+            }
+        }
+        out.push(c);
+    }
+    out
+}
+
 pub fn generate(seed: u64, n: usize, thorough: bool, _corpus: Option<&str>) -> Vec<Case> {
     let mut r = Rng::new(seed);
     let mut cases = vec![];
@@ -634,5 +783,7 @@ pub fn generate(seed: u64, n: usize, thorough: bool, _corpus: Option<&str>) -> V
     cases.extend(respell_block_cases(&mut r, if thorough { 600 } else { 60 }));
     cases.extend(respell_position_cases(&mut r, if thorough { 1600 } else { 160 }));
     cases.extend(respell_division_cases(seed, if thorough { 600 } else { 60 }));
+    cases.extend(nested_undefined_cases(seed, if thorough { 576 } else { 144 }));
+    cases.extend(respell_negation_cases(seed, if thorough { 480 } else { 60 }));
     cases
 }
